@@ -2,6 +2,7 @@
 import re
 import sys
 import z3
+import fp
 
 from mirparse import INT_TYPES, split_top, MirParseError
 from values import *
@@ -417,7 +418,7 @@ class Interp:
         if k == 'bytes':
             return Ref(Cell(Arr(tuple(v[1]), 'array'), 'bytes-const'), ())
         if k == 'float':
-            return float(v[1])
+            return fp.const(v[1], ty if ty in ('f32', 'f64') else 'f64')
         if k == 'opaque':
             im = re.match(r'^(?:core::|std::)?(i8|i16|i32|i64|i128|isize|u8|u16|u32|u64|u128|usize)::(MIN|MAX|BITS)$', v[1])
             if im:
@@ -512,8 +513,12 @@ class Interp:
             if op == 'BitOr': return simp(z3.Or(a, b))
             if op == 'BitXor': return simp(z3.Xor(a, b))
             raise Unsupported('symbolic bool binop ' + op)
-        if ty in ('f32', 'f64') or isinstance(a, float) or isinstance(b, float):
-            raise Unsupported('float arithmetic')
+        if ty in ('f32', 'f64') or isinstance(a, float) or isinstance(b, float) or fp.is_fp(a):
+            fty = ty if ty in ('f32', 'f64') else 'f64'
+            try:
+                return fp.binop(op, a, b, fty, simp)
+            except NotImplementedError as e:
+                raise Unsupported(str(e))
         if ty not in INT_TYPES:
             raise Unsupported('binop %s on type %r' % (op, ty))
         w, signed = INT_TYPES[ty]
@@ -610,6 +615,8 @@ class Interp:
                 if is_sym(a):
                     return simp(~a)
                 return norm_int(~int(a), w, signed)
+        if op == 'Neg' and (ty in ('f32', 'f64') or fp.is_fp(a)):
+            return fp.neg(a, ty if ty in ('f32', 'f64') else 'f64', simp)
         if op == 'Neg' and ty in INT_TYPES:
             w, signed = INT_TYPES[ty]
             if is_sym(a):
@@ -638,6 +645,20 @@ class Interp:
             if tw < fw:
                 return simp(z3.Extract(tw - 1, 0, v))
             return simp(z3.SignExt(tw - fw, v) if fs else z3.ZeroExt(tw - fw, v))
+        if kind == 'IntToFloat' and toty in ('f32', 'f64'):
+            if fromty == 'bool':
+                raise Unsupported('bool as float')
+            fw, fs = INT_TYPES.get(fromty, (None, None))
+            if fw is None:
+                raise Unsupported('cast from %r' % (fromty,))
+            return fp.int_to_float(v, fw, fs, toty, simp)
+        if kind == 'FloatToInt' and fromty in ('f32', 'f64'):
+            tw, ts = INT_TYPES.get(toty, (None, None))
+            if tw is None:
+                raise Unsupported('cast to ' + toty)
+            return fp.float_to_int(v, tw, ts, fromty, simp)
+        if kind == 'FloatToFloat':
+            return fp.float_to_float(v, fromty, toty, simp)
         raise Unsupported('cast kind ' + kind)
 
     # ------------------------------------------------------------------ rvalues
